@@ -771,3 +771,958 @@ def is_nontrivial(out):
     """A run exercises the property when something had to be stopped, closed or failed."""
     return bool(out.stopped is not None or any(s["raised"] for s in out.sources) or out.problems
                 or out.leaked or any(s["started"] for s in out.sources))
+
+
+# --------------------------------------------------------------------------- recording of real runs (T)
+
+K_ORPHAN = "abort-signal-wrapper-cancelled:source-anext-orphaned"
+K_TWICE = "stream-source-closed-twice:abort-races-producer-failure"
+K_CANCELLED_LIST = "cancelled-list-completion:class-source-not-closed"
+
+ST_CODE = {None: 0, "pending": 1, "fulfilled": 2, "rejected": 3}
+
+
+class Recorder:
+    """Wraps Computation / StreamItemQueue / Executor bookkeeping methods at run time (resolved by name)
+    and records abstract per-object event traces of one run."""
+
+    def __init__(self):
+        self.degraded = []
+        self.saved = []
+        self.comps = []   # [obj, rec]
+        self.queues = []
+        self.hook_traces = {}   # id(background set) -> [codes]
+        self.keep = []
+        try:
+            from graphql.execution.incremental.computation import Computation
+            self.Computation = Computation
+            for n in ("prime", "result", "abort", "_settle"):
+                getattr(Computation, n)
+        except Exception as e:  # noqa: BLE001
+            self.Computation = None
+            self.degraded.append(f"Computation trace recording: {e!r}")
+        try:
+            from graphql.execution.incremental.stream_item_queue import StreamItemQueue
+            self.StreamItemQueue = StreamItemQueue
+            for n in ("_start", "push", "abort"):
+                getattr(StreamItemQueue, n)
+        except Exception as e:  # noqa: BLE001
+            self.StreamItemQueue = None
+            self.degraded.append(f"StreamItemQueue trace recording: {e!r}")
+        try:
+            from graphql.execution.executor import Executor
+            self.Executor = Executor
+            for n in ("settle_in_background", "run_async_work_finished_hook"):
+                getattr(Executor, n)
+        except Exception as e:  # noqa: BLE001
+            self.Executor = None
+            self.degraded.append(f"Executor hook bookkeeping recording: {e!r}")
+
+    def _patch(self, cls, name, new):
+        self.saved.append((cls, name, cls.__dict__[name]))
+        setattr(cls, name, new)
+
+    def attach(self, world):
+        self.world = world
+        rec_self = self
+        from graphql.pyutils import is_awaitable
+        C = self.Computation
+        if C is not None:
+            o_init, o_prime, o_result, o_abort, o_settle = C.__init__, C.prime, C.result, C.abort, C._settle
+
+            def c_init(obj, fn, on_abort=None):
+                rec = {"runs": 0, "cb": 0, "cb_async": False, "has_cb": on_abort is not None, "last": 1,
+                       "events": [], "depth": 0}
+
+                def fn2():
+                    rec["runs"] += 1
+                    try:
+                        r = fn()
+                    except Exception:
+                        rec["last"] = 3
+                        raise
+                    rec["last"] = 2 if is_awaitable(r) else 1
+                    return r
+
+                def cb2(reason):
+                    rec["cb"] += 1
+                    r = on_abort(reason)
+                    rec["cb_async"] = bool(is_awaitable(r))
+                    return r
+                o_init(obj, fn2, cb2 if on_abort is not None else None)
+                rec_self.comps.append((obj, rec))
+                rec_self._rec_of[id(obj)] = rec
+
+            def status(obj):
+                return ST_CODE.get(getattr(obj, "_status", "?"), 9)
+
+            def wrap(orig, kind):
+                def w(obj, *a, **k):
+                    rec = rec_self._rec_of.get(id(obj))
+                    if rec is None or rec["depth"]:
+                        return orig(obj, *a, **k)
+                    rec["depth"] += 1
+                    runs0 = rec["runs"]
+                    ret = 0
+                    try:
+                        r = orig(obj, *a, **k)
+                        if kind == "result":
+                            ret = 3 if asyncio.isfuture(r) else 1
+                        elif kind == "abort":
+                            ret = 4 if is_awaitable(r) else 0
+                        return r
+                    except BaseException:
+                        ret = 2
+                        raise
+                    finally:
+                        rec["depth"] -= 1
+                        outcome = rec["last"] if rec["runs"] > runs0 else 1
+                        if kind == "prime":
+                            rec["events"].append((outcome, status(obj), ret))
+                        elif kind == "result":
+                            rec["events"].append((3 + outcome, status(obj), ret))
+                        elif kind == "abort":
+                            rec["events"].append((7, status(obj), ret))
+                        else:
+                            fut = a[0]
+                            code = 10 if fut.cancelled() else (9 if fut.exception() is not None else 8)
+                            rec["events"].append((code, 9, 9))
+                            rec["events"].append((11, status(obj), 0))
+                return w
+            self._rec_of = {}
+            self._patch(C, "__init__", c_init)
+            self._patch(C, "prime", wrap(o_prime, "prime"))
+            self._patch(C, "result", wrap(o_result, "result"))
+            self._patch(C, "abort", wrap(o_abort, "abort"))
+            self._patch(C, "_settle", wrap(o_settle, "settle"))
+        Q = self.StreamItemQueue
+        if Q is not None:
+            q_init, q_start, q_push, q_abort = Q.__init__, Q._start, Q.push, Q.abort
+
+            def qi(obj, produce, on_abort=None, eager=False, capacity=100):
+                rec = {"cb": 0, "cb_async": False, "has_cb": on_abort is not None, "eager": bool(eager),
+                       "events": [], "obj": obj}
+
+                async def produce2(q):
+                    try:
+                        await produce(q)
+                    except Exception:
+                        # 9: the producer had been cancelled and raises an exception instead
+                        rec["events"].append(9 if getattr(obj, "_producer_cancelled", False) else 6)
+                        raise
+                    rec["events"].append(5)
+
+                def cb2(reason):
+                    rec["cb"] += 1
+                    r = on_abort(reason)
+                    rec["cb_async"] = bool(is_awaitable(r))
+                    return r
+                rec_self.queues.append(rec)
+                rec_self._qrec_of[id(obj)] = rec
+                q_init(obj, produce2, cb2 if on_abort is not None else None, eager, capacity)
+
+            def qs(obj):
+                rec = rec_self._qrec_of.get(id(obj))
+                had = getattr(obj, "_producer_task", None)
+                q_start(obj)
+                if rec is not None and had is None and getattr(obj, "_producer_task", None) is not None:
+                    rec["events"].append(1)
+
+            async def qp(obj, result):
+                rec = rec_self._qrec_of.get(id(obj))
+                if rec is not None:
+                    if asyncio.isfuture(result) and not result.done():
+                        rec["events"].append(2)
+                        # a cancelled item future is discarded by the machine's tick, not an event
+                        result.add_done_callback(lambda f, rec=rec: f.cancelled() or rec["events"].append(4))
+                    else:
+                        rec["events"].append(3)
+                return await q_push(obj, result)
+
+            def qa(obj, reason=None):
+                rec = rec_self._qrec_of.get(id(obj))
+                r = q_abort(obj, reason)
+                if rec is not None:
+                    rec["events"].append(7)
+                return r
+            self._qrec_of = {}
+            self._patch(Q, "__init__", qi)
+            self._patch(Q, "_start", qs)
+            self._patch(Q, "push", qp)
+            self._patch(Q, "abort", qa)
+        E = self.Executor
+        if E is not None:
+            e_bg, e_hook = E.settle_in_background, E.run_async_work_finished_hook
+
+            def sib(ex, awaitables):
+                bg = getattr(ex, "background_futures", None)
+                before = set(bg) if bg is not None else set()
+                e_bg(ex, awaitables)
+                if bg is not None:
+                    tr = rec_self.hook_traces.setdefault(id(bg), [])
+                    rec_self.keep.append(bg)
+                    for f in set(bg) - before:
+                        tr.append(1)
+                        f.add_done_callback(lambda _f, tr=tr: tr.append(2))
+
+            def rh(ex):
+                bg = getattr(ex, "background_futures", None)
+                if bg is not None and getattr(ex, "hooks", None) is not None \
+                        and getattr(ex.hooks, "async_work_finished", None) is not None:
+                    rec_self.keep.append(bg)
+                    rec_self.hook_traces.setdefault(id(bg), []).append(3)
+                return e_hook(ex)
+            self._patch(E, "settle_in_background", sib)
+            self._patch(E, "run_async_work_finished_hook", rh)
+            world_hook = world.hook
+
+            def hook2(info):
+                try:
+                    bg = info.executor.background_futures
+                    rec_self.keep.append(bg)
+                    rec_self.hook_traces.setdefault(id(bg), []).append(5)
+                except Exception:  # noqa: BLE001
+                    pass
+                return world_hook(info)
+            world.hook = hook2
+
+    def detach(self):
+        for cls, name, old in reversed(self.saved):
+            setattr(cls, name, old)
+        self.saved = []
+
+    def collect(self):
+        comps = []
+        for obj, rec in self.comps:
+            comps.append({"has_cb": rec["has_cb"], "cb_async": rec["cb_async"], "events": list(rec["events"]),
+                          "runs": rec["runs"], "cb": rec["cb"], "final": ST_CODE.get(getattr(obj, "_status", "?"), 9)})
+        queues = []
+        for rec in self.queues:
+            o = rec["obj"]
+            t = getattr(o, "_producer_task", None)
+            queues.append({"eager": rec["eager"], "has_cb": rec["has_cb"], "cb_async": rec["cb_async"],
+                           "events": list(rec["events"]), "cb": rec["cb"],
+                           "aborted": bool(getattr(o, "_aborted", False)), "finished": bool(getattr(o, "_finished", False)),
+                           "prod": 0 if t is None else (2 if t.done() else 1),
+                           "pending": len([f for f in getattr(o, "_pending_futures", ()) if not f.done()])})
+        return comps, queues
+
+
+def comp_case(tr):
+    return [1, int(tr["has_cb"]), int(tr["cb_async"])] + [e[0] for e in tr["events"]]
+
+
+def check_comp_trace(tr, out):
+    """Model output vs recorded observations of one Computation -> None or a description."""
+    ev = tr["events"]
+    if out == [999999] or len(out) != 2 * len(ev) + 2:
+        return f"model rejected the event list {[e[0] for e in ev]}"
+    for i, (code, st, ret) in enumerate(ev):
+        mst, mret = out[2 * i], out[2 * i + 1]
+        if st != 9 and st != mst:
+            return f"event {i} (code {code}): status {st}, machine says {mst}"
+        if ret != 9 and code != 11 and ret != mret:
+            return f"event {i} (code {code}): returned kind {ret}, machine says {mret}"
+    if out[-2] != tr["runs"]:
+        return f"fn was called {tr['runs']} times, machine says {out[-2]}"
+    if out[-1] != tr["cb"]:
+        return f"on_abort was called {tr['cb']} times, machine says {out[-1]}"
+    return None
+
+
+def queue_case(tr):
+    """Recorded queue events -> opcode 6 (the machine decides where the loop may have settled)."""
+    evs = list(tr["events"])
+    if tr["eager"] and evs and evs[0] == 1:
+        evs = evs[1:]        # the eager start is the initial state of the machine
+    return [6, int(tr["eager"]), int(tr["has_cb"]), int(tr["cb_async"])] + evs, len(evs)
+
+
+def check_queue_trace(tr, out, nev):
+    if out == [999999] or len(out) < nev or (len(out) - nev) % 6:
+        return "model rejected the event list"
+    for i in range(nev):
+        if out[i] == 0:
+            return f"event {i} (code {tr['events'][-nev:][i]}) of the recorded trace is impossible in the machine"
+    finals = [out[nev + 6 * j: nev + 6 * j + 6] for j in range((len(out) - nev) // 6)]
+    want = [int(tr["aborted"]), int(tr["finished"]), tr["cb"]]
+    ok = [f for f in finals if [f[1], f[2], f[5]] == want]
+    if not ok:
+        return (f"final [aborted, finished, on_abort calls] = {want}; the machine allows "
+                f"{sorted(set((f[1], f[2], f[5]) for f in finals))}")
+    if all(f[0] == 1 for f in ok) and (tr["prod"] == 1 or tr["pending"]):
+        return "machine is quiescent but the producer task / item futures of the queue are still pending"
+    return None
+
+
+# --------------------------------------------------------------------------- direct drives (D)
+
+COMP_EVENTS = list(range(1, 12))
+QUEUE_SCRIPT_EVENTS = [1, 2, 3, 4, 5, 6, 7, 9]   # Tick (8) is inserted after every non-abort event
+ACLOSE_EVENTS = [1, 2, 3, 4]
+
+
+class _Quiet:
+    """Event loop shared by the direct drives; swallows 'never retrieved' noise."""
+
+    def __enter__(self):
+        self.loop = asyncio.new_event_loop()
+        self.loop.set_exception_handler(lambda _l, _c: None)
+        return self.loop
+
+    def __exit__(self, *a):
+        try:
+            self.loop.run_until_complete(self.loop.shutdown_asyncgens())
+        finally:
+            self.loop.close()
+
+
+async def drive_computation(Computation, has_cb, cb_async, events):
+    """Scripted events on a real Computation -> [(status, ret)...], runs, on_abort calls."""
+    loop = asyncio.get_running_loop()
+    st = {"runs": 0, "cb": 0, "outcome": 1, "fut": None}
+    cleanup = []
+
+    def fn():
+        st["runs"] += 1
+        if st["outcome"] == 1:
+            return 7
+        if st["outcome"] == 3:
+            raise RuntimeError("fn failed")
+        st["fut"] = loop.create_future()
+        return st["fut"]
+
+    async def acb():
+        return None
+
+    def on_abort(_reason):
+        st["cb"] += 1
+        return acb() if cb_async else None
+
+    comp = Computation(fn, on_abort if has_cb else None)
+    obs = []
+    for e in events:
+        ret = 0
+        if e in (1, 2, 3):
+            st["outcome"] = e
+            comp.prime()
+        elif e in (4, 5, 6):
+            st["outcome"] = e - 3
+            try:
+                r = comp.result()
+                ret = 3 if asyncio.isfuture(r) else 1
+            except BaseException:  # noqa: BLE001
+                ret = 2
+        elif e == 7:
+            r = comp.abort(RuntimeError("stop"))
+            if r is None:
+                ret = 0
+            else:
+                ret = 4
+                cleanup.append(r)
+        elif e in (8, 9, 10):
+            f = st["fut"]
+            if f is not None and not f.done():
+                if e == 8:
+                    f.set_result(1)
+                elif e == 9:
+                    f.set_exception(RuntimeError("async failure"))
+                else:
+                    f.cancel()
+        elif e == 11:
+            await asyncio.sleep(0)
+        obs.append((ST_CODE.get(comp._status, 9), ret))
+    for c in cleanup:
+        try:
+            await c
+        except BaseException:  # noqa: BLE001
+            pass
+    f = st["fut"]
+    if f is not None and not f.done():
+        f.cancel()
+    await asyncio.sleep(0)
+    return obs, st["runs"], st["cb"]
+
+
+async def drive_queue(StreamItemQueue, WorkResult, eager, has_cb, cb_async, script, applicable):
+    """Scripted events on a real StreamItemQueue (loop settled after every non-abort event)."""
+    loop = asyncio.get_running_loop()
+    cmds = asyncio.Queue()
+    pend, tasks = [], []
+    st = {"cb": 0}
+
+    async def produce(q):
+        while True:
+            try:
+                c = await cmds.get()
+            except asyncio.CancelledError:
+                if st.get("convert"):
+                    raise RuntimeError("cancellation turned into a failure") from None
+                raise
+            if c == 2:
+                f = loop.create_future()
+                pend.append(f)
+                await q.push(f)
+            elif c == 3:
+                await q.push(WorkResult(1))
+            elif c == 5:
+                return
+            elif c == 6:
+                raise RuntimeError("source failed")
+
+    async def acb():
+        await asyncio.sleep(0)
+
+    def on_abort(_reason):
+        st["cb"] += 1
+        return acb() if cb_async else None
+
+    async def consume(q):
+        try:
+            async for _ in q.batches():
+                pass
+        except BaseException:  # noqa: BLE001
+            pass
+
+    q = StreamItemQueue(produce, on_abort if has_cb else None, eager=eager)
+    consumer = None
+    obs = []
+
+    def observe(ret):
+        t = q._producer_task
+        return [int(bool(ret)), int(q._aborted), int(q._finished), 0 if t is None else (2 if t.done() else 1),
+                len(q._pending_futures), st["cb"]]
+
+    problem = None
+    for e, app in zip(script, applicable):
+        if not app:
+            obs.append(None)
+            if e != 7:
+                await _settle(8)     # the machine's script has a tick after every non-abort event
+            continue
+        ret = False
+        if e == 1:
+            if consumer is None:
+                consumer = asyncio.ensure_future(consume(q))
+        elif e in (2, 3, 5, 6):
+            cmds.put_nowait(e)
+        elif e == 4:
+            f = next((f for f in pend if not f.done()), None)
+            if f is None:
+                problem = "the machine has a pending item future, the implementation has none"
+                break
+            f.set_result(WorkResult(2))
+        elif e == 7:
+            r = q.abort(RuntimeError("stop"))
+            if r is not None:
+                ret = True
+                tasks.append(asyncio.ensure_future(r))
+        elif e == 9:
+            st["convert"] = True
+        if e != 7:
+            await _settle(8)
+        obs.append(observe(ret))
+    await _settle(8)
+    final = observe(False)[1:]
+    left = [t for t in ([consumer, q._producer_task] + tasks) if t is not None and not t.done()]
+    final_quiet = not [t for t in ([q._producer_task] + tasks) if t is not None and not t.done()]
+    for t in left:
+        t.cancel()
+    for f in pend:
+        if not f.done():
+            f.cancel()
+    if left:
+        await asyncio.gather(*left, return_exceptions=True)
+    await asyncio.sleep(0)
+    return obs, final, final_quiet, problem
+
+
+async def drive_aclosing(map_async_iterable, events, callback_raises):
+    """Scripted events on map_async_iterable over a class-based source -> close calls after each event."""
+    st = {"closes": 0, "next": None}
+
+    class Src:
+        def __aiter__(self):
+            return self
+
+        async def __anext__(self):
+            k = st["next"]
+            if k == 2:
+                raise StopAsyncIteration
+            if k == 3 and not callback_raises:
+                raise RuntimeError("source failed")
+            return 1
+
+        async def aclose(self):
+            st["closes"] += 1
+
+    async def cb(x):
+        if st["next"] == 3 and callback_raises:
+            raise RuntimeError("callback failed")
+        return x
+
+    gen = map_async_iterable(Src(), cb)
+    obs = []
+    for e in events:
+        st["next"] = e
+        try:
+            if e == 4:
+                await gen.aclose()
+            else:
+                await anext(gen)
+        except BaseException:  # noqa: BLE001
+            pass
+        obs.append(st["closes"])
+    await gen.aclose()
+    return obs
+
+
+def sequences(alphabet, n):
+    for k in range(n + 1):
+        yield from itertools.product(alphabet, repeat=k)
+
+
+# --------------------------------------------------------------------------- generated scenarios
+
+
+def extra_scenarios():
+    """Templates added for specific stop points (requested regression scenarios)."""
+    S = []
+    for sk in ("agen", "aiter"):
+        # the source raises while an EARLIER item is still pending; a deferred fragment gives the consumer a
+        # payload boundary (aclose) while StreamItemQueue._run waits for that item
+        S.append(dict(name=f"stream-{sk}-raises-with-pending-item-and-defer", kind="incr",
+                      doc="{ hero { id ... @defer { name } } items @stream(initialCount: 1) { id name } }",
+                      root={"hero": {"id": 1, "name": G("h")},
+                            "items": SRC(sk, [item(0), item(1, name=G("n1")), item(2)], raise_at=2)}))
+        S.append(dict(name=f"stream-{sk}-gated-raises-with-pending-item-and-defer", kind="incr",
+                      doc="{ hero { id ... @defer { name } } items @stream(initialCount: 1) { id name } }",
+                      root={"hero": {"id": 1, "name": G("h")},
+                            "items": SRC(sk, [item(0), item(1, name=G("n1")), item(2)], gated=True, raise_at=2)}))
+        S.append(dict(name=f"exec-list-{sk}-cancelled-by-sibling", kind="exec", doc="{ gen { id } nn }",
+                      root={"nn": G(err="boom"), "gen": SRC(sk, [item(0), item(1)], gated=True)}))
+    return S
+
+
+def random_scenario(rng, i):
+    """A request composed from building blocks; every choice comes from rng."""
+    parts, root = [], {}
+    sk = lambda: rng.choice(["agen", "aiter", "agen", "aiter", "list"])  # noqa: E731
+
+    def gate_or(v, p_err=0.15):
+        r = rng.random()
+        if r < p_err:
+            return G(err="boom")
+        if r < 0.75:
+            return G(v)
+        return v
+
+    def items(n, with_defer=False):
+        out = []
+        for j in range(n):
+            it = {"id": j, "name": gate_or(f"n{j}")}
+            if with_defer:
+                it["slow"] = gate_or(f"s{j}")
+            out.append(it)
+        return out
+
+    if rng.random() < 0.5:
+        parts.append("a")
+        root["a"] = gate_or("x")
+    if rng.random() < 0.25:
+        parts.append("nn")
+        root["nn"] = rng.choice([G("k"), G(err="boom"), {"$raise": "boom"}, "k"])
+    if rng.random() < 0.7:
+        inner = rng.choice(["name", "name slow", "slow sub { id ... @defer(label: \"I\") { name } }",
+                            "kids @stream(initialCount: 1) { id name }", "kids { id name }", "nn name"])
+        hero = {"id": 1, "name": gate_or("n"), "slow": gate_or("s"), "nn": gate_or("k", 0.4),
+                "sub": {"id": 2, "name": gate_or("sn")}}
+        if "kids" in inner:
+            k = sk()
+            n = rng.randint(1, 3)
+            hero["kids"] = SRC(k, items(n), gated=rng.random() < 0.7,
+                               raise_at=rng.choice([None, None, rng.randint(0, n - 1)]) if k != "list" else None,
+                               name="kids")
+        parts.append("hero { id ... @defer(label: \"H\") { %s } }" % inner)
+        root["hero"] = gate_or(hero, 0.0) if rng.random() < 0.3 else hero
+    if rng.random() < 0.7:
+        k = sk()
+        n = rng.randint(1, 4)
+        wd = rng.random() < 0.3
+        sel = "id name" + (" ... @defer { slow }" if wd else "")
+        root["items"] = SRC(k, items(n, wd), gated=rng.random() < 0.7,
+                            raise_at=rng.choice([None, None, rng.randint(0, n - 1)]) if k != "list" else None,
+                            name="items")
+        parts.append("items @stream(initialCount: %d) { %s }" % (rng.randint(0, 2), sel))
+    if rng.random() < 0.3:
+        k = rng.choice(["agen", "aiter"])
+        n = rng.randint(1, 3)
+        root["gen"] = SRC(k, items(n), gated=True, raise_at=rng.choice([None, None, n - 1]), name="gen")
+        parts.append("gen { id name }")
+    if not parts:
+        parts.append("a")
+        root["a"] = G("x")
+    return dict(name=f"random-{i}", kind="incr", doc="{ " + " ".join(parts) + " }", root=root)
+
+
+def random_subscription(rng, i):
+    n = rng.randint(1, 3)
+    evs = [{"ev": {"id": j, "name": (G(f"n{j}") if rng.random() < 0.5 else f"n{j}"),
+                   "nn": (G(err="boom") if rng.random() < 0.2 else "k")}} for j in range(n)]
+    ra = rng.choice([None, None, n - 1])
+    return dict(name=f"random-sub-{i}", kind="sub", doc="subscription { ev { id name nn } }",
+                root={"ev": SRC(rng.choice(["agen", "aiter"]), evs, gated=rng.random() < 0.8, raise_at=ra, name="ev")},
+                stream_raises=ra is not None)
+
+
+# --------------------------------------------------------------------------- the check
+
+
+def stop_points(out):
+    pts = []
+    for i, q in enumerate(out.qps):
+        if q == "between":
+            pts.append({"kind": "aclose", "at": i})
+        pts.append({"kind": "abort", "at": i})
+    return pts
+
+
+def canon_key(key, cls, scen, out):
+    """Canonical keys of the findings made while building the check (stable across scenarios)."""
+    if key in (K_UNSTARTED, K_FAIL_HANG):
+        return key
+    anext_names = {"async_generator_asend", "World.make_source.<locals>.It.__anext__"}
+    if cls in ("task-leak", "source-not-closed") and out.leaked and set(out.leaked) <= anext_names:
+        return K_ORPHAN
+    if cls == "source-closed-twice":
+        return K_TWICE
+    if cls == "source-not-closed" and not out.leaked:
+        return K_CANCELLED_LIST
+    return key
+
+
+def run(tier):
+    ck = Check("C06", tier)
+    ck.assumptions += ASSUMPTIONS
+    br = common.build("C06", models=("lifecycle",))
+    ck.proofs(br)
+    m = Model("lifecycle") if br.ok else None
+    thorough = tier == "thorough"
+    ck.rule = (
+        "(R) real requests: hand-written templates (plain async execute, @defer, @stream over async generator / "
+        "class-based / sync sources, nested, subscriptions; resolver and source failures) plus requests composed "
+        "from building blocks by ck.rng, x early execution {F,T} x abort signal passed {F,T} x schedules "
+        "(hand-out order, reverse, hashed) x EVERY quiescent point of the complete run as a stop point "
+        "(aclose between results incl. before the first, abort with a reason at every point) plus the complete run; "
+        "predicates: caller released within 2 s with result/reason, asyncio.all_tasks empty after draining, every "
+        "started source closed exactly once, hook exactly once and not while background/incremental futures pend. "
+        "(T) Computation / StreamItemQueue / hook bookkeeping traces recorded from those runs vs the extracted "
+        "machines. (D) all event sequences up to a bound on real Computation / StreamItemQueue / "
+        "map_async_iterable vs the machines. non-trivial = a run with a stop, a failure or a started source")
+
+    # ---------------- (D) direct drives against the extracted machines
+    if m is not None:
+        direct_drives(ck, m, thorough)
+    else:
+        ck.degraded.append("model not built: direct drives and trace acceptance skipped")
+
+    # ---------------- (R)+(T) real runs
+    scens = base_scenarios() + extra_scenarios()
+    nrand = 120 if thorough else 10
+    for i in range(nrand):
+        scens.append(random_scenario(ck.rng, i))
+    for i in range(20 if thorough else 3):
+        scens.append(random_subscription(ck.rng, i))
+    seeds = [0, 1, 2, 3] if thorough else [0, 1]
+    corpus = [c for c in common.load_corpus("C06") if "scenario" in c]
+    todo = []
+    for c in corpus:
+        todo.append((c["scenario"], c.get("sched_seed", 0), c.get("stop")))
+    recorder_ok = True
+    comp_cases, comp_meta, q_cases, q_meta, h_cases, h_meta = [], [], [], [], [], []
+    nruns = 0
+
+    def one(scen, seed, stop):
+        nonlocal nruns, recorder_ok
+        rec = None
+        if m is not None and recorder_ok:
+            rec = Recorder()
+            if rec.degraded:
+                for d in rec.degraded:
+                    if d not in ck.degraded:
+                        ck.degraded.append(d)
+        try:
+            out = run_scenario(scen, seed, stop, rec)
+        except asyncio.TimeoutError:
+            ck.violation(f"driver-timeout:{scen['name']}:{seed}:{stop}",
+                         f"run of {scen['name']} did not finish within 60 s",
+                         {"relation": "the run terminates", "scenario": scen, "sched_seed": seed, "stop": stop})
+            return None
+        nruns += 1
+        canon = (scen["name"], scen["doc"], bool(scen.get("early")), bool(scen.get("signal")), seed,
+                 json.dumps(stop, sort_keys=True))
+        ck.note_case(canon, nontrivial=is_nontrivial(out),
+                     sample={"scenario": scen["name"], "doc": scen["doc"], "early": bool(scen.get("early")),
+                             "sched_seed": seed, "stop": stop, "payloads": out.payloads,
+                             "quiescent_points": out.qps} if nruns % 977 == 1 else None)
+        ck.count("runs_" + scen["kind"])
+        ck.count("stop_" + ("none" if out.stopped is None else out.stopped[0]))
+        if out.stopped is not None:
+            ck.count("released_" + str(out.released))
+        for key, cls, what in judge(scen, out, stop):
+            key = canon_key(key, cls, scen, out)
+            ck.violation(key, what, {
+                "relation": "leak predicates of C06 on a real run", "scenario": scen, "sched_seed": seed,
+                "stop": stop, "impl": {"problems": out.problems, "leaked_tasks": out.leaked,
+                                       "leaked_after_resolvers_answered": out.leaked_after_release,
+                                       "sources": out.sources, "hooks": out.hooks, "released": out.released,
+                                       "payloads": out.payloads, "trace": out.trace}})
+        if rec is not None:
+            unstarted = out.unstarted_stream_closed and out.initial_kind == "incremental"
+            ctx = (scen, seed, stop, unstarted)
+            for tr in out.comp_traces:
+                comp_cases.append(comp_case(tr))
+                comp_meta.append((ctx, tr))
+            for tr in out.siq_traces:
+                case, nev = queue_case(tr)
+                q_cases.append(case)
+                q_meta.append((ctx, tr, nev))
+            for tid, tr in rec.hook_traces.items():
+                h_cases.append([3] + tr)
+                h_meta.append((ctx, tr, bool(out.leaked)))
+        return out
+
+    for scen, seed, stop in todo:
+        one(scen, seed, stop)
+    ck.count("corpus_cases", len(todo))
+    for scen in scens:
+        for early in (False, True):
+            for signal in ((False, True) if scen["kind"] != "exec" or thorough else (True,)):
+                sc = dict(scen, early=early, signal=signal)
+                for seed in seeds:
+                    out = one(sc, seed, None)
+                    if out is None:
+                        continue
+                    for stop in stop_points(out):
+                        if stop["kind"] == "abort" and not signal and not thorough:
+                            continue       # quick: abort stops are run once (the signal is created anyway)
+                        one(sc, seed, stop)
+    ck.count("real_runs", nruns)
+    ck.exhaustive = False
+
+    # ---------------- (T) acceptance of the recorded traces
+    if m is not None:
+        def tkey(kind, ctx):
+            scen, seed, stop, unstarted = ctx
+            if unstarted:
+                return K_UNSTARTED
+            st = "none" if stop is None else f"{stop['kind']}@{stop['at']}"
+            return f"trace-rejected:{kind}:{scen['name']}|early={int(bool(scen.get('early')))}:{st}"
+
+        def rep(kind, ctx, tr, mo):
+            scen, seed, stop, _ = ctx
+            return {"relation": f"recorded {kind} trace accepted by the extracted machine", "scenario": scen,
+                    "sched_seed": seed, "stop": stop, "impl": tr, "model": mo}
+        outs = m.run_batch(comp_cases)
+        for (ctx, tr), mo in zip(comp_meta, outs):
+            ck.evaluations += 1
+            err = check_comp_trace(tr, mo)
+            if err:
+                ck.violation(tkey("computation", ctx), f"[{ctx[0]['name']}] Computation trace: {err}",
+                             rep("Computation", ctx, tr, mo))
+        outs = m.run_batch(q_cases)
+        for (ctx, tr, nev), mo in zip(q_meta, outs):
+            ck.evaluations += 1
+            err = check_queue_trace(tr, mo, nev)
+            if err:
+                ck.violation(tkey("stream-queue", ctx), f"[{ctx[0]['name']}] StreamItemQueue trace: {err}",
+                             rep("StreamItemQueue", ctx, tr, mo))
+        outs = m.run_batch(h_cases)
+        for (ctx, tr, leaked), mo in zip(h_meta, outs):
+            ck.evaluations += 1
+            if mo[0] != 1:
+                ck.violation(tkey("hook", ctx), f"[{ctx[0]['name']}] hook bookkeeping trace {tr} rejected: {mo}",
+                             rep("hook bookkeeping", ctx, tr, mo))
+            elif len(mo) == 4 and mo[2] != 0 and not leaked and not ctx[3]:
+                ck.violation(tkey("hook", ctx), f"[{ctx[0]['name']}] run_async_work_finished_hook was called but the "
+                             f"hook never fired although the loop is quiescent (trace {tr})",
+                             rep("hook bookkeeping", ctx, tr, mo))
+        ck.count("computation_traces", len(comp_cases))
+        ck.count("stream_queue_traces", len(q_cases))
+        ck.count("hook_traces", len(h_cases))
+    return ck.finish()
+
+
+def direct_drives(ck, m, thorough):
+    # -- Computation
+    try:
+        from graphql.execution.incremental.computation import Computation
+        Computation(lambda: 1)._status  # noqa: B018
+    except Exception as e:  # noqa: BLE001
+        Computation = None
+        ck.degraded.append(f"Computation direct drive skipped: {e!r}")
+    if Computation is not None:
+        n = 5 if thorough else 4
+        cfgs = [(0, 0), (1, 0), (1, 1)]
+        cases, meta = [], []
+        for has_cb, cb_async in cfgs:
+            for evs in sequences(COMP_EVENTS, n):
+                cases.append([1, has_cb, cb_async] + list(evs))
+                meta.append((has_cb, cb_async, evs))
+        outs = m.run_batch(cases)
+        with _Quiet() as loop:
+            async def all_comp():
+                res = []
+                for has_cb, cb_async, evs in meta:
+                    try:
+                        res.append(await drive_computation(Computation, bool(has_cb), bool(cb_async), evs))
+                    except Exception as e:  # noqa: BLE001
+                        res.append(e)
+                return res
+            results = loop.run_until_complete(all_comp())
+        for (has_cb, cb_async, evs), mo, r in zip(meta, outs, results):
+            ck.note_case(("comp", has_cb, cb_async, evs), nontrivial=(7 in evs))
+            key = f"computation-direct:{has_cb}{cb_async}:{list(evs)}"
+            if isinstance(r, Exception):
+                ck.violation(key, f"driving Computation with {list(evs)} raised {r!r}",
+                             {"relation": "Computation = machine", "events": list(evs), "config": [has_cb, cb_async]})
+                continue
+            obs, runs, cb = r
+            want = [x for p in obs for x in p] + [runs, cb]
+            if want != mo:
+                ck.violation(key, f"Computation(on_abort={has_cb}, async={cb_async}) driven with events {list(evs)}: "
+                             f"observed (status, return)*, runs, on_abort calls = {want}, machine says {mo}",
+                             {"relation": "Computation = machine (status, return kind, runs, on_abort calls)",
+                              "events": list(evs), "config": [has_cb, cb_async], "impl": want, "model": mo})
+        ck.count("computation_direct_cases", len(cases))
+        ck.samples.append({"computation_events": [2, 7, 11, 7, 4], "codes": "1-3 prime(value/awaitable/raise) 4-6 result "
+                           "7 abort 8-10 future ok/err/cancelled 11 loop runs the done callback"})
+
+    # -- StreamItemQueue
+    try:
+        from graphql.execution.incremental import StreamItemQueue, WorkResult
+
+        async def _p(_q):
+            return None
+        q = StreamItemQueue(_p, None)
+        (q._aborted, q._finished, q._producer_task, q._pending_futures)  # noqa: B018
+    except Exception as e:  # noqa: BLE001
+        StreamItemQueue = None
+        ck.degraded.append(f"StreamItemQueue direct drive skipped: {e!r}")
+    if StreamItemQueue is not None:
+        n = 5 if thorough else 4
+        cfgs = [(eg, hc, ca) for eg in (0, 1) for (hc, ca) in ((0, 0), (1, 0), (1, 1))]
+        cases, meta = [], []
+        for eg, hc, ca in cfgs:
+            for script in sequences(QUEUE_SCRIPT_EVENTS, n):
+                es = []
+                for e in script:
+                    es.append(e)
+                    if e != 7:
+                        es.append(8)
+                cases.append([2, eg, hc, ca] + es)
+                meta.append((eg, hc, ca, script, es))
+        outs = m.run_batch(cases)
+        plans = []
+        for (eg, hc, ca, script, es), mo in zip(meta, outs):
+            app, i = [], 0
+            for e in es:
+                if e != 8:
+                    app.append(mo[7 * i] == 1)
+                i += 1
+            plans.append(app)
+        with _Quiet() as loop:
+            async def all_q():
+                res = []
+                for (eg, hc, ca, script, es), app in zip(meta, plans):
+                    try:
+                        res.append(await drive_queue(StreamItemQueue, WorkResult, bool(eg), bool(hc), bool(ca),
+                                                     script, app))
+                    except Exception as e:  # noqa: BLE001
+                        res.append(e)
+                return res
+            results = loop.run_until_complete(all_q())
+        for (eg, hc, ca, script, es), mo, app, r in zip(meta, outs, plans, results):
+            ck.note_case(("queue", eg, hc, ca, script), nontrivial=(7 in script or 6 in script))
+            key = f"stream-queue-direct:{eg}{hc}{ca}:{list(script)}"
+            repd = {"relation": "StreamItemQueue = machine (abort return kind, _aborted, _finished, producer task, "
+                                "pending futures, on_abort calls)", "script": list(script),
+                    "config": {"eager": eg, "on_abort": hc, "async_on_abort": ca}, "model": mo}
+            if isinstance(r, Exception):
+                ck.violation(key, f"driving StreamItemQueue with {list(script)} raised {r!r}", repd)
+                continue
+            obs, final, final_quiet, problem = r
+            if problem:
+                ck.violation(key, f"StreamItemQueue script {list(script)}: {problem}", repd)
+                continue
+            # model rows: one per model event (incl. ticks); compare the row after the tick that follows
+            # a non-abort event, and the row of the abort itself
+            i, bad = 0, None
+            for e, a, o in zip(script, app, obs):
+                row_i = i if e == 7 else i + 1
+                i += 1 if e == 7 else 2
+                if not a:
+                    continue
+                row = mo[7 * row_i: 7 * row_i + 7]
+                want = [row[1] if e == 7 else 0] + row[2:]
+                if o != want:
+                    bad = f"after event {e}: observed [ret, aborted, finished, producer, pending, on_abort calls] = {o}, machine says {want}"
+                    break
+            if bad is None:
+                fin = mo[7 * len(es):]
+                if final != fin[1:]:
+                    bad = f"final state {final}, machine says {fin[1:]}"
+                elif fin[0] == 1 and not final_quiet:
+                    bad = "machine is quiescent, the implementation still has a pending producer / cleanup task"
+            if bad:
+                repd["impl"] = {"observations": obs, "final": final}
+                ck.violation(key, f"StreamItemQueue(eager={eg}, on_abort={hc}, async={ca}) script {list(script)}: {bad}",
+                             repd)
+        ck.count("stream_queue_direct_cases", len(cases))
+
+    # -- map_async_iterable / aclosing
+    try:
+        from graphql.execution import map_async_iterable
+    except Exception as e:  # noqa: BLE001
+        map_async_iterable = None
+        ck.degraded.append(f"map_async_iterable direct drive skipped: {e!r}")
+    if map_async_iterable is not None:
+        n = 6 if thorough else 5
+        cases, meta = [], []
+        for cbr in (False, True):
+            for evs in sequences(ACLOSE_EVENTS, n):
+                cases.append([4] + list(evs))
+                meta.append((cbr, evs))
+        outs = m.run_batch(cases)
+        with _Quiet() as loop:
+            async def all_a():
+                return [await drive_aclosing(map_async_iterable, evs, cbr) for cbr, evs in meta]
+            results = loop.run_until_complete(all_a())
+        for (cbr, evs), mo, obs in zip(meta, outs, results):
+            ck.note_case(("aclosing", cbr, evs), nontrivial=bool(evs))
+            want = mo[1::2]
+            if obs != want:
+                ck.violation(f"aclosing-direct:{int(cbr)}:{list(evs)}",
+                             f"map_async_iterable driven with {list(evs)} (callback raises: {cbr}): source.aclose() "
+                             f"calls after each event {obs}, machine says {want}",
+                             {"relation": "aclosing: source close calls", "events": list(evs),
+                              "callback_raises": cbr, "impl": obs, "model": want})
+        ck.count("aclosing_direct_cases", len(cases))
+
+
+def replay(path):
+    d = json.loads(open(path).read())
+    if "scenario" in d:
+        out = run_scenario(d["scenario"], d.get("sched_seed", 0), d.get("stop"))
+        print("quiescent points:", out.qps)
+        print("stopped:", out.stopped, "released:", out.released, "payloads:", out.payloads)
+        print("sources:", out.sources)
+        print("hook calls:", len(out.hooks), "leaked tasks:", out.leaked)
+        vs = judge(d["scenario"], out, d.get("stop"))
+        for key, cls, what in vs:
+            print("VIOLATION", canon_key(key, cls, d["scenario"], out), what)
+        if not vs:
+            print("no violation on this input")
+        return 1 if vs else 0
+    print(json.dumps(d, indent=1)[:4000])
+    return 0
